@@ -60,6 +60,8 @@ def build_engine():
 def build_driver(ctx):
     """The compile driver is rebuilt against REPO's working tree on every run (hooks on)."""
     d = os.path.join(ctx.scratch, "driver")
+    if os.path.exists(os.path.join(ctx.scratch, "verifdriver")):
+        return os.path.join(ctx.scratch, "verifdriver")
     shutil.copytree(os.path.join(VERIF, "driver"), d)
     with open(os.path.join(d, "go.mod"), "w") as f:
         f.write("module verifdriver\n\ngo 1.19\n\nrequire github.com/goghcrow/go-co v0.0.0\n\nreplace github.com/goghcrow/go-co => %s\n" % REPO)
@@ -71,10 +73,22 @@ def build_driver(ctx):
     return os.path.join(ctx.scratch, "verifdriver")
 
 
-def make_ws(ctx):
+class SubCtx:
+    """a second workspace (other Go language version) inside the same scratch directory"""
+
+    def __init__(self, ctx, name, go_version):
+        self.__dict__.update(ctx.__dict__)
+        self.ws = os.path.join(ctx.scratch, name)
+        make_ws(self, go_version)
+
+    def q(self, quick, thorough):
+        return thorough if self.thorough else quick
+
+
+def make_ws(ctx, go_version="1.20"):
     shutil.copytree(os.path.join(VERIF, "ws"), ctx.ws)
     with open(os.path.join(ctx.ws, "go.mod"), "w") as f:
-        f.write("module verifws\n\ngo 1.20\n\nrequire github.com/goghcrow/go-co v0.0.0\n\nreplace github.com/goghcrow/go-co => %s\n" % REPO)
+        f.write("module verifws\n\ngo %s\n\nrequire github.com/goghcrow/go-co v0.0.0\n\nreplace github.com/goghcrow/go-co => %s\n" % (go_version, REPO))
     shutil.copy(os.path.join(REPO, "go.sum"), os.path.join(ctx.ws, "go.sum"))
     # harness packages that are not used by this check must still build (go vet is not run), so
     # nothing else to do here
